@@ -95,7 +95,7 @@ func scenarios(thorough bool) []scen {
 	add(2, setting{B: dnsfix.CDB, W: 3}, 1, 2)
 	add(3, setting{B: dnsfix.CDB, W: 2}, 2, 3)
 	if thorough {
-		add(1, setting{B: dnsfix.RDBv2, W: 3, BSize: 1, BPar: 3}, 1, 1) // bound 2 does not finish within 40 minutes (three workers x three batch goroutines)
+		add(1, setting{B: dnsfix.RDBv2, W: 2, BSize: 1, BPar: 2}, 1, 1) // (three workers x three parallel batches: even one preemption does not finish within ten minutes)
 		add(4, setting{B: dnsfix.CDB, W: 1}, 3, 3)
 	}
 	return out
